@@ -215,6 +215,20 @@ func (d *Decoder) DecodeInteger() (uint64, error) {
 	return d.decodeUintFromReader()
 }
 
+// DecodeIntegerMax decodes a general natural destined for a field narrower
+// than 64 bits. A value above max has no encoding in that field (it would be
+// truncated and would not re-encode to the input), so it is rejected.
+func (d *Decoder) DecodeIntegerMax(max uint64) (uint64, error) {
+	value, err := d.decodeUintFromReader()
+	if err != nil {
+		return 0, err
+	}
+	if value > max {
+		return 0, fmt.Errorf("integer %d out of range (max %d)", value, max)
+	}
+	return value, nil
+}
+
 // C.6 Deserialization of a length prefix (number of items of a sequence or
 // dictionary, number of octets of a blob). Every item occupies at least one
 // octet of input, so a length larger than the unread input is malformed. It is
